@@ -23,7 +23,7 @@ func init() { register("C09", checkC09) }
 
 func checkC09(c *Ctx) {
 	r := c.R
-	r.Explanation = "Decides structural necessary conditions of C09 on the limiter type that NewCoalescing builds (events/ratelimiting). The type, its Run/Add/Close and its fields are resolved by role (exported anchors, types, dataflow; fields also through grouped sub-structs held by value, pointer or embedding), unexported names only as a reported fallback. Every rule is evaluated on a path-sensitive exploration (one abstract state per path, deferred calls replayed) of Run, Add, Close, the other exported methods and every goroutine body (in the context of its go statement), with same-package callees followed as if inlined: static calls, closures, method values, func-typed fields assigned one function, single-implementation interfaces, closures handed to library functions, literal tables of steps (counted loops unrolled); constant/flag/enum/tuple results of helpers and flags written to captured variables stay correlated with the caller's branches. (L1) pending counter/timer/current window/back-off factor only under the limiter's lock (W for writes); (L2) no wg.Wait while holding a lock that a goroutine counted in the wait group needs to terminate — the Close/Run deadlock; (L3) signals never exceed Adds: a signal (goroutine sending on Run's event channel, at most one send per goroutine) is started only for a pending count known positive that is zeroed in the same write-lock section; (L4) every go statement is preceded by wg.Add on every path, every wg.Add is followed by its go statement or the function's own Done, every goroutine body reaches wg.Done on every exit, Close reaches wg.Wait on every path; (L6) Add counts the event and starts the token goroutine (blocking send on the token channel) in one write-lock section on every path that is not the closed early-return; (L7) the pending count is never zeroed unless a signal is started for it or it is known zero (no counted Add dropped); at a window expiry the pending events are fired; with no window open the token fires immediately, arms a timer of the initial delay and sets the window flag; reaching the cap (>=) fires immediately; (L8) timer.Reset only after Stop with the channel drained when Stop reported false; (L9) the back-off factor grows only under a strict current<max test and the current window is clamped to max before it is used or the lock released; (L10) the expiry section restores the idle state (current=initial, factor=1, flag=false, timer=nil); (L11) every signalling goroutine waits on a context derived in Run (not the caller's) and Run cancels it on every return. Shutdown cases in helper goroutines (L5) are reported as NOTE only. UNDECIDED when a role cannot be resolved, a call inside the explored code cannot be followed (then would-be violations of that exploration are not reported as such), a store/comparison has an unrecognised shape, or a bound is exceeded. NOT decided: the window/back-off timeline values, 'first Add immediate', 'every Add followed by a signal in time' and 'no Add lost' over all interleavings."
+	r.Explanation = "Decides structural necessary conditions of C09 on the limiter type that NewCoalescing builds (events/ratelimiting). The type, its Run/Add/Close and its fields are resolved by role (exported anchors, types, dataflow; fields also through grouped sub-structs held by value, pointer or embedding), unexported names only as a reported fallback. Every rule is evaluated on a path-sensitive exploration (one abstract state per path, deferred calls replayed) of Run, Add, Close, the other exported methods and every goroutine body (in the context of its go statement), with same-package callees followed as if inlined: static calls, closures, method values, func-typed fields assigned one function, single-implementation interfaces, closures handed to library functions, literal tables of steps (counted loops unrolled); constant/flag/enum/tuple results of helpers and flags written to captured variables stay correlated with the caller's branches. (L1) pending counter/timer/current window/back-off factor only under the limiter's lock (W for writes); (L2) no wg.Wait while holding a lock that a goroutine counted in the wait group needs to terminate — the Close/Run deadlock; (L3) signals never exceed Adds: a signal (goroutine sending on Run's event channel, at most one send per goroutine) is started only for a pending count known positive that is zeroed in the same write-lock section; (L4) every go statement is preceded by wg.Add on every path, every wg.Add is followed by its go statement or the function's own Done, every goroutine body reaches wg.Done on every exit, Close reaches wg.Wait on every path; (L6) Add counts the event and starts the token goroutine (blocking send on the token channel) in one write-lock section on every path that is not the closed early-return; (L7) the pending count is never zeroed unless a signal is started for it or it is known zero (no counted Add dropped); at a window expiry the pending events are fired; with no window open the token fires immediately, arms a timer of the initial delay and sets the window flag; reaching the cap fires immediately and the cap test is a >= (Add counts independently of the run loop, so == or a strict > misses counts that reach or pass the cap between two token handlings); (L8) timer.Reset only after Stop with the channel drained when Stop reported false; (L9) the back-off factor grows only under a strict current<max test and the current window is clamped to max before it is used or the lock released; (L10) the expiry section restores the idle state (current=initial, factor=1, flag=false, timer=nil); (L11) every signalling goroutine waits on a context derived in Run (not the caller's) and Run cancels it on every return. (L12) every wg.Add is made under the lock after the closed flag was found false in the same section (Close sets the flag, passes the lock as a barrier, then waits), or while the running entry point holds its own count. Shutdown cases in helper goroutines (L5) are reported as NOTE only. UNDECIDED when a role cannot be resolved, a call inside the explored code cannot be followed (then would-be violations of that exploration are not reported as such), a store/comparison has an unrecognised shape, or a bound is exceeded. NOT decided: the window/back-off timeline values, 'first Add immediate', 'every Add followed by a signal in time' and 'no Add lost' over all interleavings."
 	r.Assumptions = append(r.Assumptions, "type-based lock identity (one limiter instance per receiver)", "the event channel is the channel parameter of the exported Run, followed through calls, closures and go statements", "the pending counter is only ever incremented by one or zeroed (checked), hence never negative", "bounds: call depth 12, 2048 abstract states per block, 16 tracked reads of the pending counter, loop unrolling only for counted loops over literal tables, 4 remembered call results / 3 local flags / first 2 results of a helper per path")
 	r.Rule("C09.L1-guard", "window state only under the limiter lock (W for writes)", 5)
 	r.Rule("C09.L2-wait-under-lock", "wg.Wait is not called holding a lock a counted goroutine needs", 1)
@@ -34,6 +34,7 @@ func checkC09(c *Ctx) {
 	r.Rule("C09.L9-backoff-bounded", "the back-off factor grows only under current < max (strict) and the current window is clamped to max", 1)
 	r.Rule("C09.L10-reset-idle", "the expiry path restores the whole idle state: current=initial, factor=1, window flag=false, timer=nil (pending count 0 by L7)", 1)
 	r.Rule("C09.L11-run-context", "signalling goroutines wait on the context derived in Run that Close cancels, not the caller's", 2)
+	r.Rule("C09.L12-add-registered", "every wg.Add is made under the write lock after the closed flag was found false in that section, or while the running entry point holds its own count", 2)
 	r.Rule("C09.L7-handlers", "pending count never dropped; expiry fires; first token fires immediately and opens initialDelay window; cap fires immediately", 4)
 
 	k := c09Resolve(c)
@@ -146,6 +147,8 @@ func checkC09(c *Ctx) {
 	}
 	if !a.seenCase["cap"] {
 		switch {
+		case a.diag["capWrong"] != "":
+			// already reported at the comparison
 		case len(a.capCmp) == 0 && !k.fieldReadInLoop(k.fCap):
 			r.Violation("C09.L7-handlers", k.fname(k.run)+" cap", p.Pos(k.run.Pos()), "the pending-events cap is never consulted by the run loop: reaching the pending-events cap no longer fires immediately")
 		case a.capCmp[">"] != "" && a.capCmp[">="] == "":
@@ -179,6 +182,7 @@ func checkC09(c *Ctx) {
 	k.timerRearm()
 	k.backoffBounded()
 	k.runContext()
+	c09Fixture(c)
 }
 
 // guardedBy (L1): the shared guarded-by rule, whose lockset engine infers the
@@ -246,6 +250,41 @@ func (k *c09) guardedBy(a *c09Acct, specs []GuardSpec, guarded []string) {
 			r.Undecide("C09.L1-guard found no access to %s.%s outside the constructor", k.tkey, f)
 		}
 	}
+}
+
+// c09Fixture runs the accounting flow on fixture c09reg (a miniature limiter with the same exported
+// anchors whose extra exported methods Bad*/Good* carry the shapes) and reports the findings of the
+// wg.Add registration rule (L12) and of the cap-comparison direction (part of L7).
+func c09Fixture(c *Ctx) {
+	c.Fixture("c09reg", func(fp *Prog, fr *Report) {
+		e := NewLockEngine(fp)
+		e.Run()
+		k := c09ResolveIn(c, fp, fr, e, "")
+		a := &c09Acct{k: k, loads: map[*ssa.UnOp]int{}, find: map[string]*c09Finding{}, seenCase: map[string]bool{}, diag: map[string]string{}, visited: map[ssa.Instruction]bool{}, capCmp: map[string]string{}, lockAt: map[ssa.Instruction]Mode{}, goDone: map[string]bool{}}
+		for _, fn := range k.fns {
+			allInstrs(fn, func(in ssa.Instruction) {
+				if x, ok := in.(*ssa.UnOp); ok && x.Op == token.MUL {
+					if f, ok := k.addrFieldR(x.X); ok && f == k.fPend {
+						a.loads[x] = len(a.loads)
+					}
+				}
+			})
+		}
+		for i := 0; i < k.T.NumMethods(); i++ {
+			if m := fp.SSA.FuncValue(k.T.Method(i)); m != nil && k.T.Method(i).Exported() {
+				kind := "other"
+				if m == k.run {
+					kind = "run"
+				}
+				a.run(m, kind)
+			}
+		}
+		for _, f := range a.sortedFindings() {
+			if f.rule == "C09.L12-add-registered" || strings.HasSuffix(f.construct, " cap comparison") {
+				fr.Check(!f.bad, f.rule, f.construct, f.pos, f.msg, f.msg)
+			}
+		}
+	})
 }
 
 func c09DescribeInstr(in ssa.Instruction) string {
